@@ -92,6 +92,10 @@ func classify(kind byte, body []byte) string {
 // nested: module a includes submodule as0 only, which includes as (a submodule reached through another submodule)
 var nested bool
 
+// bothSpellings: a base in the identity's own module is written twice, without and with the module's own prefix
+// ("base x; base a:x;"): two base statements, one identity - it still lists the derived identity once
+var bothSpellings bool
+
 // trio: module a includes as0 (which includes as), then as again, then as2; as2 holds what the model places in module a
 // itself (the text of a submodule is text of its module), so every include statement of a has to be followed
 var trio bool
@@ -118,6 +122,13 @@ func texts(c *cas, variant int, shared bool) map[string]string {
 				sp = b[1]
 			}
 			fmt.Fprintf(w, " base %s;", sp)
+			if bothSpellings && b[0] == owner(i.Home) {
+				other := b.String()
+				if sp == other {
+					other = b[1]
+				}
+				fmt.Fprintf(w, " base %s;", other)
+			}
 		}
 		w.WriteString(" }\n")
 	}
@@ -282,6 +293,14 @@ func exec(kind byte, body []byte) *core.Verdict {
 		return v3
 	}
 	v0.N += v3.N
+	bothSpellings = true
+	v4 := judgeVariant(&c, len(body), false)
+	bothSpellings = false
+	if !v4.OK || v4.Infra != "" {
+		v4.Detail = "(own-module bases written twice, with and without the own prefix) " + v4.Detail
+		return v4
+	}
+	v0.N += v4.N
 	v1 := judgeVariant(&c, len(body), true)
 	v1.N += v0.N + v2.N
 	if v1.Sample == nil {
